@@ -23,7 +23,7 @@ RULE = (
     "observable): at each tick the latest not-yet-sampled element, completion at the first tick after the source completed, "
     "source error immediately. A timer/tick and a source notification at exactly the same instant may be ordered either way "
     "(one order per timer and instant; for sample one order for ALL ticks of a subscription: an element arriving exactly on a "
-    "tick is either always sampled by that tick or always by the next one). Non-trivial: >=1 element suppressed and >=1 emitted. In 1 case of 3 (not for sample with a sampler observable) the same built observable is subscribed a second time at a generated tick s1 in s0+{0,1,2,3,7} and the same per-subscription oracle is applied to that probe. Scheduler passing: debounce, throttle_first and sample(period) are run in the modes sub (no argument, subscription carries the lab scheduler), arg (scheduler argument, subscription carries none) and arg-other (argument, subscription carries a different never-started virtual scheduler reading +1000 ticks) and must behave identically; one in four throttle observables is a scheduler-less library factory (timer(d), empty(), return_value, never) and the sampler observable may be a scheduler-less interval(p): they must inherit the subscribe-time scheduler. Any request for the real-time TimeoutScheduler during a run is refused and reported (realtime-fallback), any action left on the decoy scheduler is reported (wrong-scheduler). Distinct = distinct case JSON."
+    "tick is either always sampled by that tick or always by the next one). Non-trivial: >=1 element suppressed and >=1 emitted. In 1 case of 3 (not for sample with a sampler observable) the same built observable is subscribed a second time at a generated tick s1 in s0+{0,1,2,3,7} and the same per-subscription oracle is applied to that probe. Scheduler passing: debounce, throttle_first and sample(period) are run in the modes sub (no argument, subscription carries the lab scheduler), arg (scheduler argument, subscription carries none) and arg-other (argument, subscription carries a different never-started virtual scheduler reading +1000 ticks) and must behave identically; one in four throttle observables is a scheduler-less library factory (timer(d), empty(), return_value, never) and the sampler observable may be a scheduler-less interval(p): they must inherit the subscribe-time scheduler. Any request for the real-time TimeoutScheduler during a run is refused and reported (realtime-fallback), any action left on the decoy scheduler is reported (wrong-scheduler). Re-entrant feedback (check sample_feedback): sample(period) over a hot source into which the downstream pushes a new element while the k-th sample is being delivered - it arrived after that sample was taken, so it is the latest not-yet-sampled element at the next tick (ignored if the source had already completed). Distinct = distinct case JSON."
 )
 ASSUMPTIONS = [
     "throttle_first windows and sample periods are > 0 (documented precondition); debounce due time >= 0",
@@ -183,7 +183,9 @@ def _judge_twm(case, lab, p, s0, ths):
 
 
 # ------------------------------------------------------------------------------ sample
-def _exp_sample(eff, ticks, ch):
+def _exp_sample(eff, ticks, ch, fb=()):
+    """fb: indices k such that, while the k-th sample is being delivered, the downstream pushes element 1000+k into the
+    (hot) source: it arrives after that sample was taken, so it is the latest not-yet-sampled element for the next tick."""
     out, pend, at_end = [], None, False
     ti = mi = 0
     dec = []  # ONE tie order for the whole run: every tick is either before or after the source notifications of its instant
@@ -199,6 +201,9 @@ def _exp_sample(eff, ticks, ch):
             if pend is not None:
                 out.append([nt, "N", pend])
                 pend = None
+                k = sum(1 for e in out if e[1] == "N") - 1
+                if k in fb and not at_end:
+                    pend = ["int", 1000 + k]
             if at_end:
                 out.append([nt, "C", None])
                 return out
@@ -230,6 +235,8 @@ def _run_sample(case):
         kw, sub = sched_setup(lab, case)
         op = ops.sample(targ(lab, case["form"], per), **kw)
         cls.append("sampler:period")
+        if case.get("fb"):
+            cls.append("feedback-during-delivery")
     elif case["sampler"]["kind"] == "lib:interval":
         # a scheduler-less library interval as sampler observable: must inherit the subscribe-time scheduler
         per = case["sampler"]["period"]
@@ -255,7 +262,20 @@ def _run_sample(case):
                 return OK(False, cls + ["trivial-horizon"])
         op = ops.sample(sm)
         cls.append("sampler:" + case["sampler"]["kind"])
-    probes = execute_all(lab, src.pipe(op), subs, until=H, sub=sub)
+    fb = tuple(case.get("fb") or ())
+    pipeline = src.pipe(op)
+    if fb:
+        seen = [0]
+
+        def feedback(_v):
+            k = seen[0]
+            seen[0] += 1
+            if k in fb:
+                for o in list(src.observers):  # re-entrant: the source emits while the sample is being delivered
+                    o.on_next(1000 + k)
+
+        pipeline = pipeline.pipe(ops.do_action(feedback))
+    probes = execute_all(lab, pipeline, subs, until=H, sub=sub)
     res = []
     for p, eff, ticks in zip(probes, effs, tickss):
         c = list(cls)
@@ -266,7 +286,9 @@ def _run_sample(case):
             c.append("element-at-tick-instant")
         if eff and eff[-1][1] == "C":
             c.append("source-completes")
-        res.append(_judge_nt("sample", case, lab, p, outcomes(lambda ch, eff=eff, ticks=ticks: _exp_sample(eff, ticks, ch)), c, nelems({"tl": eff})))
+        if fb and any(e[1] == "N" and e[2][1] >= 1000 for e in p.trace()):
+            c.append("feedback-element-sampled")
+        res.append(_judge_nt("sample", case, lab, p, outcomes(lambda ch, eff=eff, ticks=ticks: _exp_sample(eff, ticks, ch, fb)), c, nelems({"tl": eff}) + len(fb)))
     return combine(res, subs)
 
 
@@ -317,6 +339,15 @@ def _sample_cases(draw):
     return c
 
 
+@st.composite
+def _sample_fb_cases(draw):
+    """sample(period) over a hot source into which the downstream pushes a new element while the k-th sample is delivered."""
+    per = draw(st.sampled_from([1, 2, 2, 3]))
+    s0, spec = draw(sources(d=per, max_len=5, min_len=1, kinds=("hot",)))
+    fb = sorted(set(draw(st.lists(st.integers(0, 3), min_size=1, max_size=2))))
+    return {"clock": draw(st.sampled_from(CLOCKS)), "s0": s0, "src": spec, "period": per, "form": draw(st.sampled_from(FORMS)), "s1": None, "sch": "sub", "fb": fb}
+
+
 def checks(tier):
     T = 16
     sh = {"quick": 4, "thorough": 16}
@@ -324,5 +355,6 @@ def checks(tier):
         Check("debounce", _run_debounce, strategy=_rel_cases([0, 1, 2, 2, 3, 5], alias=True), examples={"quick": 2400, "thorough": T * 12000}, shards=sh),
         Check("throttle_first", _run_tf, strategy=_rel_cases([1, 2, 2, 3, 5]), examples={"quick": 1600, "thorough": T * 8000}, shards=sh),
         Check("throttle_with_mapper", _run_twm, strategy=_twm_cases(), examples={"quick": 2000, "thorough": T * 8000}, shards=sh),
-        Check("sample", _run_sample, strategy=_sample_cases(), examples={"quick": 2400, "thorough": T * 12000}, shards=sh),
+        Check("sample_feedback", _run_sample, strategy=_sample_fb_cases(), examples={"quick": 600, "thorough": T * 3000}, shards=sh),
+        Check("sample", _run_sample, strategy=_sample_cases(), examples={"quick": 2000, "thorough": T * 12000}, shards=sh),
     ]
